@@ -684,7 +684,7 @@ func updateFkeysIIndex(mu *metaUpdate, sch *schema.Schema) {
 	for i := range sch.Indexes {
 		ix := &sch.Indexes[i]
 		if ix.Fk.Table != "" {
-			updateOtherFkToHere(mu, sch.Table, &ix.Fk, i)
+			updateOtherFkToHere(mu, sch.Table, ix.Columns, &ix.Fk, i)
 		}
 		for j := range ix.FkToHere {
 			updateOtherFk(mu, sch.Table, &ix.FkToHere[j], i)
@@ -692,14 +692,19 @@ func updateFkeysIIndex(mu *metaUpdate, sch *schema.Schema) {
 	}
 }
 
-func updateOtherFkToHere(mu *metaUpdate, table string, fk *Fkey, iindex int) {
+// updateOtherFkToHere sets the IIndex of the FkToHere entry (in the target of fk)
+// that belongs to the index of table with the given columns.
+// A table can have several indexes that reference the same key.
+func updateOtherFkToHere(mu *metaUpdate, table string, columns []string,
+	fk *Fkey, iindex int) {
 	ts := mu.getSchema(fk.Table)
 	for i := range ts.Indexes {
 		ix := &ts.Indexes[i]
 		for j := range ix.FkToHere {
 			ix.FkToHere = slc.Clone(ix.FkToHere)
 			fk2 := &ix.FkToHere[j]
-			if fk2.Table == table && slices.Equal(ix.Columns, fk.Columns) {
+			if fk2.Table == table && slices.Equal(fk2.Columns, columns) &&
+				slices.Equal(ix.Columns, fk.Columns) {
 				fk2.IIndex = iindex
 			}
 		}
